@@ -1,5 +1,6 @@
 """Runs pipeline programs against the real library and judges the observation
 for C01 (iteration), C02 (len / indexing) and C03 (keys / items / key lookup)."""
+import os
 import itertools
 
 from . import refmodel, programs, observe as ob
@@ -93,8 +94,11 @@ def run_case(ld, prog, aspects, prefix_hook=None, watchdog_s=8):
                                 c = None
                     return oa, ob, oc
                 o['interleave'] = ob.guarded(uneven)
+            # (in the thorough tier, with some twenty times as many programs,
+            # the two aspects below are taken for a fifth of their quick share)
+            thin = 5 if os.environ.get('VERIF_SHARD_TIER') == 'thorough' else 1
             if 'interleave' in aspects and status == 'ok' and m.finite \
-                    and stable_hash(repr(prog)) % 3 == 2:
+                    and stable_hash(repr(prog)) % (3 * thin) == 2:
                 # benign operations between two next() calls: an iteration is
                 # suspended after k examples, five operations that only look
                 # at the dataset (or are refused) are carried out on the same
@@ -175,7 +179,7 @@ def run_case(ld, prog, aspects, prefix_hook=None, watchdog_s=8):
                                       (list(mb.labels) if mb.listable
                                        and mb.labelstate != 'none' else None))
             if 'neighbour' in aspects and status == 'ok' and m.finite \
-                    and len(prog['src']) <= 3 and stable_hash(repr(prog)) % 6 == 2:
+                    and len(prog['src']) <= 3 and stable_hash(repr(prog)) % (6 * thin) == 2:
                 # object lifetime: only a copy of the pipeline survives (the
                 # original and its source are released), then the same program
                 # is built over a source with other keys / another key order.
@@ -192,7 +196,7 @@ def run_case(ld, prog, aspects, prefix_hook=None, watchdog_s=8):
                         d0 = programs.build(ld, prog)
                         orphan = d0.copy(freeze=bool(stable_hash(repr(prog)) % 5 == 0))
                         del d0
-                        gc.collect()
+                        gc.collect(0)
                         outs = []
                         for _ in range(2):
                             d1 = programs.build(ld, prog_b)
